@@ -190,7 +190,7 @@ Definition set_dropped s v := mkQS (buf s) (wait s) (qp s) (flag s) (inq s) (hp 
 Definition set_rets s v := mkQS (buf s) (wait s) (qp s) (flag s) (inq s) (hp s) (out s) (consumed s) (handled s) (dropped s) v (nwr s).
 Definition set_nwr s v := mkQS (buf s) (wait s) (qp s) (flag s) (inq s) (hp s) (out s) (consumed s) (handled s) (dropped s) (rets s) v.
 
-Definition set_q s g p := set_qp s (upd_nat (qp s) g p).
+Definition set_qpc s g p := set_qp s (upd_nat (qp s) g p).
 
 Definition qinit (n : nat) : qstate :=
   mkQS (fun _ => []) (fun _ => []) (repeat QIdle n) false [] (HRun []) [] [] (fun _ => []) (fun _ => []) (fun _ => []) (fun _ => O).
@@ -219,7 +219,7 @@ Section QStep.
     else [OWrite; OSelect].
 
   (* what the querier still does after its select has chosen the reply (got) / the timer branch *)
-  Definition post (k : kind) (got : bool) : list qop :=
+  Definition qpost (k : kind) (got : bool) : list qop :=
     if flagged k && (if got then q_clr_reply c else q_clr_timeout c) then [OSet false] else [].
 
   Definition report_ops (two : bool) (v : Z) : list hop :=
@@ -247,14 +247,14 @@ Section QStep.
                                          else set_buf s (kupd (buf s) k b')
                   | _ => set_buf s (kupd (buf s) k b')
                   end in
-        set_q (set_rets s1 (kupd (rets s1) k (rets s1 k ++ [v]))) g (QPost k (post k true) (Some v))
+        set_qpc (set_rets s1 (kupd (rets s1) k (rets s1 k ++ [v]))) g (QPost k (qpost k true) (Some v))
     | [] =>
         match hp s with
         | HOffer k' v' rest =>
             if kind_eqb k' k
-            then set_q (set_rets (set_hp s (HRun rest)) (kupd (rets s) k (rets s k ++ [v']))) g (QPost k (post k true) (Some v'))
-            else set_q (set_wait s (kupd (wait s) k (wait s k ++ [g]))) g (QParked k)
-        | _ => set_q (set_wait s (kupd (wait s) k (wait s k ++ [g]))) g (QParked k)
+            then set_qpc (set_rets (set_hp s (HRun rest)) (kupd (rets s) k (rets s k ++ [v']))) g (QPost k (qpost k true) (Some v'))
+            else set_qpc (set_wait s (kupd (wait s) k (wait s k ++ [g]))) g (QParked k)
+        | _ => set_qpc (set_wait s (kupd (wait s) k (wait s k ++ [g]))) g (QParked k)
         end
     end.
 
@@ -263,7 +263,7 @@ Section QStep.
     let s0 := set_handled s (kupd (handled s) k (handled s k ++ [v])) in
     match wait s k with
     | g :: w =>
-        set_hp (set_q (set_rets (set_wait s0 (kupd (wait s) k w)) (kupd (rets s) k (rets s k ++ [v]))) g (QPost k (post k true) (Some v))) (HRun r)
+        set_hp (set_qpc (set_rets (set_wait s0 (kupd (wait s) k w)) (kupd (rets s) k (rets s k ++ [v]))) g (QPost k (qpost k true) (Some v))) (HRun r)
     | [] =>
         if Nat.ltb (List.length (buf s k)) (cap k)
         then set_hp (set_buf s0 (kupd (buf s) k (buf s k ++ [v]))) (HRun r)
@@ -278,28 +278,28 @@ Section QStep.
     | LCall g k =>
         if Nat.ltb g (List.length (qp s)) then
           match qget s g with
-          | QIdle | QPost _ [] _ => Some (set_q s g (QRun k (prog k)))
+          | QIdle | QPost _ [] _ => Some (set_qpc s g (QRun k (prog k)))
           | _ => None
           end
         else None
     | LQ g =>
         match qget s g with
-        | QRun k (OSet b :: r) => Some (set_q (set_flag s b) g (QRun k r))
-        | QRun k (OWrite :: r) => Some (set_q (set_nwr s (kupd (nwr s) k (S (nwr s k)))) g (QRun k r))
+        | QRun k (OSet b :: r) => Some (set_qpc (set_flag s b) g (QRun k r))
+        | QRun k (OWrite :: r) => Some (set_qpc (set_nwr s (kupd (nwr s) k (S (nwr s k)))) g (QRun k r))
         | QRun k (OSelect :: _) => Some (receive g k s)
-        | QPost k (OSet b :: r) res => Some (set_q (set_flag s b) g (QPost k r res))
+        | QPost k (OSet b :: r) res => Some (set_qpc (set_flag s b) g (QPost k r res))
         | _ => None
         end
     | LQTimeout g =>
         match qget s g with
         | QParked k =>
             match k_rcv (q_k c k) with
-            | RTimed => Some (set_q (set_wait s (kupd (wait s) k (remove_nat g (wait s k)))) g (QPost k (post k false) None))
+            | RTimed => Some (set_qpc (set_wait s (kupd (wait s) k (remove_nat g (wait s k)))) g (QPost k (qpost k false) None))
             | _ => None
             end
         | QRun k (OSelect :: _) =>
             match k_rcv (q_k c k) with
-            | RTimed => Some (set_q s g (QPost k (post k false) None))
+            | RTimed => Some (set_qpc s g (QPost k (qpost k false) None))
             | _ => None
             end
         | _ => None
@@ -354,6 +354,12 @@ Definition avail (k : kind) (s : qstate) : list Z := buf s k ++ offer_of k (hp s
 Definition hops (h : hpc) : list hop := match h with HRun l => l | HOffer _ _ r => r end.
 Definition hop_is_clear (o : hop) : bool := match o with HSet false => true | _ => false end.
 Definition hop_is_send (k : kind) (o : hop) : bool := match o with HSend k' _ => kind_eqb k' k | _ => false end.
+(* the handler still has to perform, or is blocked in, a send on k *)
+Definition sending (k : kind) (h : hpc) : bool :=
+  match h with
+  | HRun l => existsb (hop_is_send k) l
+  | HOffer k' _ r => kind_eqb k' k || existsb (hop_is_send k) r
+  end.
 
 (* querier g is inside a query of kind k (between the call and the return) *)
 Definition outstanding (k : kind) (p : qpc) : bool :=
@@ -399,7 +405,7 @@ Definition conc_at (c : qcfg) (k : kind) (s : qstate) (l : qlabel) : bool :=
 Definition no_rearm_at (s : qstate) (l : qlabel) : bool :=
   match l with
   | LQ g => match qget s g with
-            | QRun _ (OSet true :: _) => negb (existsb (hop_is_send KCpr) (hops (hp s)))
+            | QRun _ (OSet true :: _) => negb (sending KCpr (hp s))
             | _ => true
             end
   | _ => true
@@ -415,9 +421,23 @@ Definition quiet_at (k : kind) (s : qstate) (l : qlabel) : bool :=
 Definition is_plain_key (x : seq) : bool := match x with SKey _ => true | _ => false end.
 Definition is_r (x : seq) : bool := match x with SR _ _ => true | SReply k _ => flagged k | _ => false end.
 
+(* the plain keys the terminal has sent along a run *)
+Definition arrived_keys (tr : list qlabel) : list seq :=
+  flat_map (fun l => match l with LArrive (SKey x) => [SKey x] | _ => [] end) tr.
+
 (* ranking function of the handler: its own steps (LH, LHTimeout) strictly decrease it *)
 Definition hrank (s : qstate) : nat :=
-  (6 * List.length (inq s) + match hp s with HRun l => List.length l | HOffer _ _ r => S (List.length r) end)%nat.
+  (10 * List.length (inq s) + match hp s with HRun l => 2 * List.length l | HOffer _ _ r => S (2 * List.length r) end)%nat.
+
+(* the configuration c with the channel of kind k replaced (used to show that each clause of
+   [qcfg_ok] is needed) *)
+Definition cfg_with (k : kind) (kc : kcfg) (c : qcfg) : qcfg :=
+  mkQ (fun k' => if kind_eqb k' k then kc else q_k c k') (q_arm c) (q_clr_timeout c) (q_clr_reply c) (q_hclr c).
+
+(* querier g cannot move, its receive has no timer that could fire, and the input goroutine is idle with
+   nothing to handle: only a further sequence from the terminal can change anything *)
+Definition stuck (c : qcfg) (s : qstate) (g : nat) : bool :=
+  negb (qenabled c (LQ g) s) && negb (qenabled c (LQTimeout g) s) && negb (qenabled c LH s) && negb (qenabled c LHTimeout s).
 
 (* ------------------------------------------------------------------------------------ *)
 (* Part E: the scripted runner the harness is compared with, and the property on one     *)
@@ -460,7 +480,7 @@ Definition key_code (x : seq) : Z :=
 Section QExec.
   Variable c : qcfg.
 
-  Definition try (l : qlabel) (s : qstate) : qstate := match qstep c l s with Some s' => s' | None => s end.
+  Definition qtry (l : qlabel) (s : qstate) : qstate := match qstep c l s with Some s' => s' | None => s end.
 
   Fixpoint first_some {A} (f : nat -> option A) (n : nat) (i : nat) : option A :=
     match n with
@@ -470,22 +490,22 @@ Section QExec.
 
   (* everybody runs until nothing moves: the handler first, then runnable queriers (lowest first),
      then the handler's offer timer, then the timers of parked queriers *)
-  Fixpoint settle (fuel : nat) (s : qstate) : qstate :=
+  Fixpoint qsettle (fuel : nat) (s : qstate) : qstate :=
     match fuel with
     | O => s
     | S n =>
         match qstep c LH s with
-        | Some s' => settle n s'
+        | Some s' => qsettle n s'
         | None =>
             match first_some (fun g => qstep c (LQ g) s) (List.length (qp s)) O with
-            | Some s' => settle n s'
+            | Some s' => qsettle n s'
             | None =>
                 match qstep c LHTimeout s with
-                | Some s' => settle n s'
+                | Some s' => qsettle n s'
                 | None =>
                     match first_some (fun g => match qget s g with QParked _ => qstep c (LQTimeout g) s | _ => None end)
                                      (List.length (qp s)) O with
-                    | Some s' => settle n s'
+                    | Some s' => qsettle n s'
                     | None => s
                     end
                 end
@@ -494,8 +514,8 @@ Section QExec.
     end.
 
   (* the handler alone, up to the point where it is idle or blocked *)
-  Fixpoint settle_h (fuel : nat) (s : qstate) : qstate :=
-    match fuel with O => s | S n => match qstep c LH s with Some s' => settle_h n s' | None => s end end.
+  Fixpoint qsettle_h (fuel : nat) (s : qstate) : qstate :=
+    match fuel with O => s | S n => match qstep c LH s with Some s' => qsettle_h n s' | None => s end end.
 
   (* querier g alone *)
   Fixpoint run_q (fuel : nat) (g : nat) (s : qstate) : qstate :=
@@ -505,7 +525,7 @@ Section QExec.
     match fuel with
     | O => s
     | S n => match qget s g with
-             | QRun _ ops => if existsb is_write ops then run_q_write n g (try (LQ g) s) else s
+             | QRun _ ops => if existsb is_write ops then run_q_write n g (qtry (LQ g) s) else s
              | _ => s
              end
     end.
@@ -520,18 +540,18 @@ Section QExec.
   Definition exec_act (i : nat) (a : sact) (s : qstate) : qstate :=
     match a with
     | AQuery k m v =>
-        let s0 := try (LCall i k) s in
+        let s0 := qtry (LCall i k) s in
         if m =? 0 then
           let s1 := run_q_write 8 i s0 in
-          let s2 := settle_h 50 (try (LArrive (reply_seq k v)) s1) in
-          settle 200 (run_q 8 i s2)
+          let s2 := qsettle_h 50 (qtry (LArrive (reply_seq k v)) s1) in
+          qsettle 200 (run_q 8 i s2)
         else if m =? 1 then
           let s1 := run_q 8 i s0 in
-          settle 200 (try (LArrive (reply_seq k v)) s1)
-        else settle 200 (run_q 8 i s0)
-    | AReply k v => settle 200 (try (LArrive (reply_seq k v)) s)
-    | AKeyR two v => settle 200 (try (LArrive (SR two v)) s)
-    | AKey x => settle 200 (try (LArrive (SKey x)) s)
+          qsettle 200 (qtry (LArrive (reply_seq k v)) s1)
+        else qsettle 200 (run_q 8 i s0)
+    | AReply k v => qsettle 200 (qtry (LArrive (reply_seq k v)) s)
+    | AKeyR two v => qsettle 200 (qtry (LArrive (SR two v)) s)
+    | AKey x => qsettle 200 (qtry (LArrive (SKey x)) s)
     end.
 
   Definition is_query (a : sact) : bool := match a with AQuery _ _ _ => true | _ => false end.
@@ -659,3 +679,16 @@ Definition c10_query_mismatches (l : list query_case) : list Z := bad_indices qu
 Definition c10_query_violations (l : list query_case) : list Z := bad_indices query_violation l.
 Definition c10_query_violations_all (l : list query_case) : list Z := bad_indices query_violation_all l.
 Definition c10_query_known (l : list query_case) : list Z := bad_indices query_known l.
+
+(* every scenario of at most n actions over the alphabet: each of the five query kinds issued with an
+   early / a prompt / no answer, a reply of each kind at rest, the three sorts of key; values are made
+   distinct by the position *)
+Definition scn_kinds : list kind := [KFg; KBg; KCol; KCpr; KClip].
+Definition act_alphabet (i : Z) : list sact :=
+  flat_map (fun k => [AQuery k 0 (300 + i); AQuery k 1 (300 + i); AQuery k 2 0; AReply k (300 + i)]) scn_kinds
+  ++ [AKeyR true 258; AKeyR false 0; AKey 3].
+Fixpoint scenarios (n : nat) (i : Z) : list (list sact) :=
+  match n with
+  | O => [[]]
+  | S n' => [] :: flat_map (fun a => map (cons a) (scenarios n' (i + 1))) (act_alphabet i)
+  end.
